@@ -159,7 +159,7 @@ def device_fmmus(prog, rep, tag):
         ok2 = ok2 and len(inc) == 1 and inc[0].bb in b.reachable_strict(fm[0][0])
     rep.ob(P, "write_fmmu_config:window" + tag, bool(ok) and ok2, "FMMU{logical_start_address: offset (before the advance), length_bytes: SM length, physical_start_address: SM start}; then offset += ceil(bits/8)", loc=b.span, how="dataflow")
     pi = prog.body("PdiOffset::increment_byte_aligned")
-    ok = any((c.decl_s or "").endswith("::div_ceil") and q.const_int(c.args[1]) == 8 for c in pi.calls()) and len(pi.calls_to("PdiOffset::increment_inner")) == 1
+    ok = any((c.decl_s or "").endswith("::div_ceil") and q.const_int(c.args[1]) == 8 for c in pi.calls()) and (len(pi.calls_to("PdiOffset::increment_inner")) + len(pi.calls_to("PdiOffset::increment")) == 1)
     rep.ob(P, "PdiOffset:byte-aligned" + tag, ok, "increment_byte_aligned adds ceil(bits/8) bytes", loc=pi.span, how="dataflow")
     # the stored io ranges are relative to the group start
     cf = prog.async_body("configuration::configure_fmmus")
